@@ -92,8 +92,10 @@ func (s Source) text() (string, error) {
 	return string(b), err
 }
 
-var exprs = []string{"a + b * c", "[x for x in y if x]", "lambda a, b=1, *c, d, **e: (a, b, c, d, e)", "{k: v for k, v in z}", "f(a)(b)[c].d", "x if y else z", "(yield)", "not a or b and c < d <= e"}
-var singles = []string{"x = 1\n", "print(x)\n", "def f(a, b=2):\n    return a + b\n\n", "for i in range(3):\n    pass\n\n", "import os\n", "class C(B):\n    x = 1\n    def m(self):\n        return self.x\n\n", "a, *b = c\n"}
+var exprs = []string{"[t for h, *t in d]", "{k: v for k, *v in d}", "[(a, b, c, e) for a, *b in x for *c, e in y]", "[i for i, (j, *k) in z]", "(lambda: [q for *q, r in s])()",
+	"a + b * c", "[x for x in y if x]", "lambda a, b=1, *c, d, **e: (a, b, c, d, e)", "{k: v for k, v in z}", "f(a)(b)[c].d", "x if y else z", "(yield)", "not a or b and c < d <= e"}
+var singles = []string{"x += 1\n", "x[i] += y\n", "x.y -= 2\n", "a, *b = c; b += [1]\n", "first, *rest = [1, 2, 3]\n", "for p, *q in r:\n    q += p\n\n", "[a, *b] = c\n", "x[0][1].z *= 3\n",
+	"x = 1\n", "print(x)\n", "def f(a, b=2):\n    return a + b\n\n", "for i in range(3):\n    pass\n\n", "import os\n", "class C(B):\n    x = 1\n    def m(self):\n        return self.x\n\n", "a, *b = c\n"}
 
 func (Engine) Gen(seed uint64, idx int, tier string) interface{} {
 	loadCorpus()
@@ -111,7 +113,12 @@ func (Engine) Gen(seed uint64, idx int, tier string) interface{} {
 		case x == 8:
 			sc.Sources = append(sc.Sources, Source{Name: "<expr>", Src: exprs[r.Intn(len(exprs))]})
 		default:
-			sc.Sources = append(sc.Sources, Source{Name: "<single>", Src: singles[r.Intn(len(singles))]})
+			if r.Chance(1, 3) {
+				// the same small texts in exec mode
+				sc.Sources = append(sc.Sources, Source{Name: "<snippet>", Src: singles[r.Intn(len(singles))] + "v = " + exprs[r.Intn(len(exprs))] + "\n"})
+			} else {
+				sc.Sources = append(sc.Sources, Source{Name: "<single>", Src: singles[r.Intn(len(singles))]})
+			}
 		}
 	}
 	nt := 1 + r.Intn(4)
